@@ -26,7 +26,13 @@ def gen_history(rng, nalters=None):
         tables.append(G.gen_table(rng, ncols=rng.choice([2, 3, 4, 5]), constraints=False, name=name, schema=schema))
     stmts = []
     na = nalters if nalters is not None else rng.choice([0, 1, 1, 2, 3, 5, 8])
+    # some columns are declared with delimiters; statements that match by normalised name may spell them differently
+    for t in tables:
+        for c in t["cols"]:
+            if rng.random() < 0.3:
+                c["name"] = rng.choice(QUOTES[1:4])(c["name"])
     live = {i: [c["name"] for c in t["cols"]] for i, t in enumerate(tables)}
+    bare = lambda x: x.strip('"[]`')
     for _ in range(na):
         ti = rng.randrange(len(tables))
         t = tables[ti]
@@ -40,18 +46,18 @@ def gen_history(rng, nalters=None):
             stmts.append((k, ti, "ALTER TABLE %s ADD %s int;" % (tn, nm), {"name": nm}))
         elif k == "drop":
             c = rng.choice(cols)
-            stmts.append((k, ti, "ALTER TABLE %s DROP COLUMN %s;" % (tn, rng.choice(QUOTES)(c)), {"name": c}))
+            stmts.append((k, ti, "ALTER TABLE %s DROP COLUMN %s;" % (tn, rng.choice(QUOTES)(bare(c))), {"name": c}))
             live[ti] = [x for x in cols if x != c]
         elif k == "rename":
             c = rng.choice(cols)
             nn = "ren_%d" % rng.randrange(1000)
-            stmts.append((k, ti, "ALTER TABLE %s RENAME COLUMN %s TO %s;" % (tn, rng.choice(QUOTES)(c), nn), {"from": c, "to": nn}))
+            stmts.append((k, ti, "ALTER TABLE %s RENAME COLUMN %s TO %s;" % (tn, rng.choice(QUOTES)(bare(c)), nn), {"from": c, "to": nn}))
             live[ti] = [x for x in cols if x != c]
         elif k == "modify":
             c = rng.choice(cols)
             form = rng.choice(["MODIFY COLUMN", "ALTER COLUMN", "MODIFY"])
             sz = rng.randrange(1, 300)
-            wr = rng.choice(QUOTES[:4])(c)
+            wr = rng.choice(QUOTES[:4])(bare(c))
             stmts.append((k, ti, "ALTER TABLE %s %s %s varchar(%d);" % (tn, form, wr, sz), {"name": c, "written": wr, "size": sz}))
         elif k == "unique1":
             c = rng.choice(cols)
@@ -69,8 +75,9 @@ def gen_history(rng, nalters=None):
         elif k == "fk":
             cs = rng.sample(cols, min(len(cols), rng.choice([1, 2, 3])))
             rc = ["r%d" % i for i in range(len(cs))]
-            stmts.append((k, ti, "ALTER TABLE %s ADD CONSTRAINT fk_x FOREIGN KEY (%s) REFERENCES o.parent (%s);" % (tn, ", ".join(cs), ", ".join(rc)),
-                          {"cols": cs, "rcols": rc}))
+            wcs = [rng.choice(QUOTES[:4])(bare(c)) for c in cs]
+            stmts.append((k, ti, "ALTER TABLE %s ADD CONSTRAINT fk_x FOREIGN KEY (%s) REFERENCES o.parent (%s);" % (tn, ", ".join(wcs), ", ".join(rc)),
+                          {"cols": wcs, "rcols": rc}))
         elif k == "check":
             c = rng.choice(cols)
             stmts.append((k, ti, "ALTER TABLE %s ADD CONSTRAINT ck_x CHECK (%s > 0);" % (tn, c), {"col": c}))
